@@ -5,6 +5,7 @@ package pc19
 
 import (
 	"context"
+	"errors"
 	"fmt"
 	"time"
 
@@ -16,6 +17,12 @@ import (
 	"verifharness/gen"
 	"verifharness/mon"
 )
+
+// ErrRigTimeout: the rig gave up waiting. A wall-clock limit is never a verdict about the join's consistency (this property);
+// that a join always ends is C29's subject. The property counts such cases as inconclusive.
+var ErrRigTimeout = errors.New("rig: timeout")
+
+const rigPatience = 30 * time.Second
 
 // gated plays one message per token; a token after the last message ends the stream.
 type gated struct {
@@ -55,14 +62,14 @@ func (g *gated) Run(ctx execution.ExecutionContext, produce execution.ProduceFn,
 // Event of the observed history: inputs taken by the join and outputs emitted by it, in the join's own order.
 type Event struct {
 	In   bool
-	Side string  // for In
+	Side string   // for In
 	Msg  *mon.Msg // nil = close
-	Out  mon.Out // for !In
+	Out  mon.Out  // for !In
 }
 
 type JoinSpec struct {
-	Kind   string `json:"kind"` // inner | left | right | outer
-	NLeft  int    `json:"nleft"`  // number of columns
+	Kind   string `json:"kind"`  // inner | left | right | outer
+	NLeft  int    `json:"nleft"` // number of columns
 	NRight int    `json:"nright"`
 }
 
@@ -141,8 +148,8 @@ func RunScheduled(spec JoinSpec, left, right []mon.Msg, schedule []byte) (hist [
 			default:
 				return hist, fmt.Errorf("rig: join returned before taking the released %s message: %v", side, err)
 			}
-		case <-time.After(5 * time.Second):
-			return hist, fmt.Errorf("rig: join did not take the released %s message within 5s (schedule %s)", side, schedule)
+		case <-time.After(rigPatience):
+			return hist, fmt.Errorf("%w: join did not take the released %s message within %s (schedule %s)", ErrRigTimeout, side, rigPatience, schedule)
 		}
 		if e.Side != side {
 			return hist, fmt.Errorf("rig: released %s but the join took a message from %s", side, e.Side)
@@ -157,8 +164,8 @@ func RunScheduled(spec JoinSpec, left, right []mon.Msg, schedule []byte) (hist [
 	select {
 	case err := <-done:
 		return hist, err
-	case <-time.After(5 * time.Second):
-		return hist, fmt.Errorf("rig: join did not return within 5s after both inputs ended")
+	case <-time.After(rigPatience):
+		return hist, fmt.Errorf("%w: join did not return within %s after both inputs ended", ErrRigTimeout, rigPatience)
 	}
 }
 
